@@ -1,4 +1,5 @@
 -- property theorems: SpqProofs/Properties/Cxx.lean ; helper lemmas: SpqProofs/Lemmas/*.lean
+import SpqProofs.Properties.C03
 import SpqProofs.Properties.C05
 import SpqProofs.Properties.C08
 import SpqProofs.Properties.C09
@@ -6,4 +7,5 @@ import SpqProofs.Properties.C11
 import SpqProofs.Properties.C12
 import SpqProofs.Properties.C13
 import SpqProofs.Properties.C15
+import SpqProofs.Properties.C17
 import SpqProofs.Properties.C18
